@@ -37,6 +37,9 @@ class Ctx:
         self.assumptions = []
         self.extra = {}
     def cleanup(self):
+        if os.environ.get('VT_KEEP'):
+            print('scratch kept at', self.scratch)
+            return
         shutil.rmtree(self.scratch, ignore_errors=True)
     def quick(self):
         return self.tier == 'quick'
@@ -126,11 +129,33 @@ def run_harness(ctx, scenarios, name, binary=None, shards=None, env=None):
     shards = shards or min(NCPU, max(1, len(scenarios) // 8))
     # keep twins together: a scenario with 'twin' must directly follow its twin
     groups = []
+    gof = {}
     for s in scenarios:
-        if s.get('twin') and groups:
-            groups[-1].append(s)
-        else:
-            groups.append([s])
+        if not s.get('twin'):
+            gof[s['id']] = [s]
+            groups.append(gof[s['id']])
+    for s in scenarios:
+        if s.get('twin'):
+            if s['twin'] not in gof:
+                raise Infra('scenario %s names an unknown twin %s' % (s['id'], s['twin']))
+            gof[s['twin']].append(s)
+    # split large twin groups so that they spread over the shards: each part re-runs its own copy of the clean twin
+    split = []
+    for g in groups:
+        if len(g) <= 13:
+            split.append(g)
+            continue
+        clean, rest = g[0], g[1:]
+        for k in range(0, len(rest), 12):
+            c = dict(clean)
+            if k > 0:
+                c['id'] = '%s#%d' % (clean['id'], k // 12)
+            part = [c]
+            for n in rest[k:k + 12]:
+                n = dict(n); n['twin'] = c['id']
+                part.append(n)
+            split.append(part)
+    groups = split
     buckets = [[] for _ in range(shards)]
     for i, g in enumerate(groups):
         buckets[i % shards].extend(g)
